@@ -15,7 +15,7 @@ import warnings
 from hypothesis import strategies as st
 
 from traits.api import (HasTraits, TraitType, TraitError, List, Dict, Set, Str, Int, Any, Union, Either, Trait, Property,
-                        Supports, cached_property, push_exception_handler, pop_exception_handler)
+                        Supports, Instance, cached_property, push_exception_handler, pop_exception_handler)
 from traits.adaptation.api import AdaptationManager, set_global_adaptation_manager, get_global_adaptation_manager
 from traits.observation.api import push_exception_handler as opush, pop_exception_handler as opop
 
@@ -105,6 +105,7 @@ def build():
         p = Property(Int, observe="e")
         pdep = Property(Int, depends_on="e")
         sup = Supports(IC)
+        supd = Instance(IC, adapt="default")
         t = Int
         tl = List(Int)
         q = Property
@@ -169,6 +170,7 @@ def snapshot(o):
     d["cache_p"] = o.__dict__.get("_traits_cache_p", "<unset>")
     d["cache_pdep"] = tuple(sorted((k, repr(v)) for k, v in o.__dict__.items() if k.startswith("_traits_cache_pdep")))
     d["sup"] = type(o.__dict__.get("sup")).__name__
+    d["supd"] = type(o.__dict__.get("supd")).__name__
     p = o.__dict__["_partner"]
     d["partner.e"] = p.__dict__.get("e", 0)
     d["partner.le"] = list(p.__dict__.get("le", []))
@@ -200,6 +202,13 @@ OPS = {
     "q set": lambda o: setattr(o, "q", 3),
     "q get": lambda o: o.q,
     "sup adapt": lambda o: setattr(o, "sup", IA()),
+    "supd adapt (adapt='default')": lambda o: setattr(o, "supd", IA()),
+    # quiet assignments, ONE attribute each (a multi-attribute trait_set is a sequence of assignments, not one operation)
+    "trait_setq": lambda o: o.trait_setq(e=8),
+    "trait_setq bad": lambda o: o.trait_setq(e=3),
+    "trait_set quiet property": lambda o: o.trait_set(trait_change_notify=False, q=5),
+    "trait_set quiet union": lambda o: o.trait_set(trait_change_notify=False, u=6),
+    "trait_set quiet list": lambda o: o.trait_set(trait_change_notify=False, le=[2, 4]),
     "assign list": lambda o: setattr(o, "le", [2, 2, 2]),
     "sync scalar": lambda o: setattr(o, "t", 4),
     "sync scalar bad": lambda o: setattr(o, "t", 3),
@@ -256,17 +265,19 @@ def run_with(case, k, exc):
     post = snapshot(o)
     fol = []
     for f in case["follow"]:
+        del LOG[:]
         try:
-            fol.append(("ok", repr(FOLLOW[f](o))))
+            fol.append(("ok", repr(FOLLOW[f](o)), tuple(sorted(LOG))))      # (also WHICH handlers each later step reaches)
         except Exception as e:
-            fol.append((type(e).__name__,))
+            fol.append((type(e).__name__, tuple(sorted(LOG))))
     # closing probe, the same for every case: read every derived value, change the dependencies once more, read again
     # (a stale cache or a lost invalidation shows up here even when the generated follow-up did not look)
     for f in PROBE:
+        del LOG[:]
         try:
-            fol.append(("probe", f, repr(FOLLOW[f](o))))
+            fol.append(("probe", f, repr(FOLLOW[f](o)), tuple(sorted(LOG))))
         except Exception as e:
-            fol.append(("probe", f, type(e).__name__))
+            fol.append(("probe", f, type(e).__name__, tuple(sorted(LOG))))
     return pre, post, err, sites, log, fol, snapshot(o)
 
 
@@ -370,4 +381,4 @@ def run(case, ctx):
 
 def stages(tier):
     return [{"name": "inject", "kind": "hyp", "strategy": strategy, "run": run,
-             "examples": {"quick": 1500, "thorough": 60000}, "shards": 16}]
+             "examples": {"quick": 5000, "thorough": 100000}, "shards": 16}]
